@@ -8,6 +8,8 @@ import os
 import pathlib
 import sys
 import tempfile
+import threading
+import weakref
 from typing import TYPE_CHECKING
 from typing import Any
 
@@ -83,6 +85,27 @@ def get_pkg_digest() -> hashlib._Hash:
 
 
 log = logging.getLogger('chameleon.template')
+
+# One lock per file template, kept beside the instances rather than on
+# them (instances stay as copyable and picklable as they were).
+_reload_locks: weakref.WeakKeyDictionary[Any, Any] = \
+    weakref.WeakKeyDictionary()
+_reload_locks_guard = threading.Lock()
+
+
+_reload_lock_shared = threading.RLock()
+
+
+def _reload_lock(template: Any) -> Any:
+    try:
+        return _reload_locks[template]
+    except KeyError:
+        with _reload_locks_guard:
+            return _reload_locks.setdefault(template, threading.RLock())
+    except TypeError:
+        # (an instance that cannot be a dictionary key or cannot be
+        # referenced weakly: such templates share one lock)
+        return _reload_lock_shared
 
 
 def _make_module_loader() -> ModuleLoader:
@@ -424,23 +447,32 @@ class BaseTemplateFile(BaseTemplate):
             self.cook_check()
 
     def cook_check(self) -> bool:
-        if self.auto_reload:
-            mtime = self.mtime()
+        if self._cooked and not self.auto_reload:
+            return False
 
-            if mtime != self._v_last_read:
-                # Invalidate before recording the new modification
-                # time: another thread that sees the recorded time must
-                # never find the stale body still marked as cooked.
-                self._cooked = False
-                self._v_last_read = mtime
+        # Looking at the file, reading it and compiling it is one step
+        # as far as other threads are concerned: a thread that has read
+        # an older version must not finish compiling after one that has
+        # read a newer version.
+        with _reload_lock(self):
+            if self.auto_reload:
+                mtime = self.mtime()
 
-        if self._cooked is False:
-            body = self.read()
-            log.debug("cooking %r (%d bytes)..." % (self.filename, len(body)))
-            self.cook(body)
-            return True
+                if mtime != self._v_last_read:
+                    # Invalidate before recording the new modification
+                    # time: a thread that sees the recorded time must
+                    # never find the stale body still marked as cooked.
+                    self._cooked = False
+                    self._v_last_read = mtime
 
-        return False
+            if self._cooked is False:
+                body = self.read()
+                log.debug(
+                    "cooking %r (%d bytes)..." % (self.filename, len(body)))
+                self.cook(body)
+                return True
+
+            return False
 
     def mtime(self) -> float:
         filename = self.filename
